@@ -16,6 +16,7 @@ import (
 	"math/rand"
 	"net/http"
 	"net/http/httptest"
+	"net/url"
 	"os"
 	"os/exec"
 	"path/filepath"
@@ -28,13 +29,14 @@ import (
 	"github.com/fabiolb/fabio/config"
 	"github.com/fabiolb/fabio/registry/consul"
 	"github.com/fabiolb/fabio/route"
+	"github.com/gobwas/glob"
 	"github.com/hashicorp/consul/api"
 
 	"verifharness/internal/vh"
 )
 
-const preamble = `From Coq Require Import String List NArith.
-From Fabio Require Import Lib.Outcome Lib.Bytes Lib.Pack Model.Consul Model.Watch Check.C01.
+const preamble = `From Coq Require Import String List NArith ZArith.
+From Fabio Require Import Lib.Outcome Lib.Bytes Lib.Pack Model.RouteCmd Model.Consul Model.Watch Model.RegistryTable Check.C01.
 Import ListNotations.
 Local Open Scope N_scope.
 `
@@ -733,8 +735,92 @@ func partB(run *vh.Run) {
 				coqChecks(st.checks), cat, vh.HxS(res.texts[k])),
 				map[string]interface{}{"step": k, "status": h.status, "strict": h.strict, "prefix": h.prefix,
 					"checks": humanChecks(st.checks), "catalog": human, "pushed": strings.Split(res.texts[k], "\n")})
+			if !h.inconsistent {
+				emitE2E(run, h.class, h.prefix, h.status, h.strict, st.checks, res.cats[k], res.texts[k], human)
+			}
 		}
 	}
+}
+
+// end to end: the pushed text goes through the real route.NewTable; the composed Coq model
+// (registry -> C14 commands -> C05 table) has to produce the same text and the same table
+func hostpathGo(prefix string) (string, string) {
+	if strings.HasPrefix(prefix, ":") {
+		return prefix, ""
+	}
+	p := strings.SplitN(prefix, "/", 2)
+	if len(p) == 1 {
+		return p[0], "/"
+	}
+	return p[0], "/" + p[1]
+}
+
+func emitE2E(run *vh.Run, class, prefix string, status []string, strict bool, checks []*api.HealthCheck,
+	cat []*api.CatalogService, text string, human []string) {
+	urls := map[string]string{}
+	var addURL func(d string)
+	addURL = func(d string) {
+		if _, seen := urls[d]; seen {
+			return
+		}
+		u, err := url.Parse(d)
+		if err != nil {
+			urls[d] = vh.None
+			return
+		}
+		urls[d] = vh.Some(vh.HxS(u.String()))
+		addURL(u.String())
+	}
+	bad := map[string]bool{}
+	items := make([]string, len(cat))
+	for i, e := range cat {
+		for _, line := range consul.VerifRouteCmdBuild(e, prefix, map[string]string{"DC": "dc1"}) {
+			fs := strings.Fields(line)
+			if len(fs) >= 5 {
+				addURL(fs[4])
+			}
+			if len(fs) >= 4 {
+				_, p := hostpathGo(fs[3])
+				if _, err := glob.Compile(p); err != nil {
+					bad[p] = true
+				}
+			}
+		}
+		reg := vh.App("Build_reg", vh.HxS(e.ServiceName), vh.HxS(e.ServiceID), vh.HxS(e.ServiceAddress), vh.HxS(e.Address),
+			vh.Z(int64(e.ServicePort)), strs(e.ServiceTags))
+		items[i] = vh.App("mkREntry", vh.HxS(e.Node), reg)
+	}
+	var uk []string
+	for k := range urls {
+		uk = append(uk, k)
+	}
+	sort.Strings(uk)
+	ul := make([]string, len(uk))
+	for i, k := range uk {
+		ul[i] = vh.Pair(vh.HxS(k), urls[k])
+	}
+	var bl []string
+	for k := range bad {
+		bl = append(bl, k)
+	}
+	sort.Strings(bl)
+	var t route.Table
+	var err error
+	if p, v := vh.Recover(func() { t, err = route.NewTable(bytes.NewBufferString(text)) }); p {
+		run.Violation(run.NextID(), fmt.Sprintf("route.NewTable panicked on a config pushed by the consul backend: %v", v), text)
+		return
+	}
+	tbl := vh.None
+	var dump [][4]string
+	if err == nil {
+		dump = dumpTable(t)
+		tbl = vh.Some(coqTbl(dump))
+	}
+	env := "(Some [(" + vh.HxS("DC") + ", " + vh.HxS("dc1") + ")])"
+	run.Add("e2e-"+class, vh.App("CE2E", env, vh.HxS(prefix), vh.List(ul), strs(bl), strs(status), vh.Bool(strict),
+		coqChecks(checks), vh.List(items), vh.HxS(text), tbl),
+		map[string]interface{}{"status": status, "strict": strict, "checks": humanChecks(checks), "catalog": human,
+			"pushed": strings.Split(text, "\n"), "table": dump, "accepted": err == nil})
 }
 
 // ---------- C: watchBackend ----------
